@@ -102,6 +102,62 @@ pub fn eval(c: &RawCase) -> Outcome {
             format!("output differs (lengths {} vs {}), first difference at byte {} inside '{}'", a.out.len(), b.out.len(), pos, boxname),
         );
     }
+    // each rejected call on its own: with all OTHER rejected calls removed it must be rejected again, for the same reason
+    // (otherwise it was rejected only because of what earlier rejected calls left behind)
+    if o.violations.is_empty() {
+        let rejected_idx: Vec<usize> = (0..ops.len()).filter(|i| !keep.contains(i)).collect();
+        let same_op = |x: usize, y: usize| format!("{:?}", ops[x]) == format!("{:?}", ops[y]);
+        // a run of identical rejected calls needs only its first and last member
+        let distinct: Vec<usize> = rejected_idx
+            .iter()
+            .copied()
+            .enumerate()
+            .filter(|&(k, i)| {
+                let prev_same = k > 0 && rejected_idx[k - 1] + 1 == i && same_op(rejected_idx[k - 1], i);
+                let next_same = k + 1 < rejected_idx.len() && rejected_idx[k + 1] == i + 1 && same_op(rejected_idx[k + 1], i);
+                !(prev_same && next_same)
+            })
+            .map(|x| x.1)
+            .collect();
+        let pick: Vec<usize> = if distinct.len() <= 24 { distinct.clone() } else { distinct[..12].iter().chain(distinct[distinct.len() - 12..].iter()).copied().collect() };
+        for r in pick {
+            let pos = keep.iter().filter(|&&k| k < r).count();
+            let mut ops_r = ops_b.clone();
+            ops_r.insert(pos, ops[r].clone());
+            let cr = run_history(&cfg, &ops_r);
+            if cr.panic.is_some() {
+                continue;
+            }
+            o.sub_evals += 1;
+            let (ra, rr) = (&a.results[r], &cr.results[pos]);
+            let same = match (ra, rr) {
+                (CallResult::Err { variant: va, .. }, CallResult::Err { variant: vb, .. }) => va == vb,
+                _ => false,
+            };
+            if !same {
+                let ep = match &ops[r] {
+                    COp::Video { .. } => "write_video",
+                    COp::VideoDts { .. } => "write_video_with_dts",
+                    COp::Audio { .. } => "write_audio",
+                    COp::EncVideo { .. } => "encode_video",
+                    COp::EncAudio { .. } => "encode_audio",
+                    COp::Finish(_) => "finish",
+                };
+                o.fail(
+                    "decisions",
+                    format!("decisions.alone.{}.{}_vs_{}", ep, ra.short().split('(').next().unwrap_or(""), rr.short().split('(').next().unwrap_or("")),
+                    format!(
+                        "call {} ({}) returned {} in the full history but {} when the other rejected calls are removed: its fate depended on calls that were themselves rejected",
+                        r,
+                        ep,
+                        ra.short(),
+                        rr.short()
+                    ),
+                );
+                break;
+            }
+        }
+    }
     o.nontrivial = rejected_followed_by_accept_same_track;
     if n_rejected == 0 {
         o.class("no_rejection");
@@ -173,6 +229,24 @@ pub fn eval_frag(c: &FragCase) -> Outcome {
             return o;
         }
     }
+    if o.violations.is_empty() {
+        let rejected_idx: Vec<usize> = (0..l.ops.len()).filter(|i| !keep.contains(i)).collect();
+        let pick: Vec<usize> = if rejected_idx.len() <= 16 { rejected_idx.clone() } else { rejected_idx[..8].iter().chain(rejected_idx[rejected_idx.len() - 8..].iter()).copied().collect() };
+        for r in pick {
+            let pos = keep.iter().filter(|&&k| k < r).count();
+            let mut ops_r = ops_b.clone();
+            ops_r.insert(pos, l.ops[r].clone());
+            let cr = run_frag(&l.cfg, &ops_r);
+            if cr.panic.is_some() {
+                continue;
+            }
+            o.sub_evals += 1;
+            if cr.results[pos] != a.results[r] {
+                o.fail("frag", "frag.alone.write", format!("write {} was rejected in the full history but behaves differently when the other rejected writes are removed", r));
+                break;
+            }
+        }
+    }
     o.nontrivial = rej_then_ok;
     if rejected == 0 {
         o.class("no_rejection");
@@ -205,6 +279,7 @@ pub fn def() -> PropertyDef {
         subs: vec![
             Box::new(PSub { name: "progressive", quick: 40000, thorough: 1200000, strat, eval }),
             Box::new(PSub { name: "fragmented", quick: 20000, thorough: 600000, strat: strat_frag, eval: eval_frag }),
+            Box::new(LSub { name: "bursts_and_long", cases: burst_cases, eval, note: BURST_NOTE }),
         ],
     }
 }
